@@ -471,6 +471,38 @@ impl Check for W2Check {
             let at = rng.below(ops.len().max(1));
             ops.insert(at, Op::Flush);
         }
+        // bias: a single-region flush of a region that has only a metadata change (or nothing) while
+        // ANOTHER region holds unsynced bytes: Region::flush syncs whole files, so the order
+        // data-sync-before-metadata-sync matters for the other region
+        if rng.chance(1, 2) {
+            let created: Vec<usize> = ops.iter().filter_map(|o| if let Op::Create { n } = o { Some(*n) } else { None }).collect();
+            if created.len() >= 2 {
+                let a = *rng.pick(&created);
+                let b = *rng.pick(&created);
+                if a != b {
+                    let first_ok = ops.iter().rposition(|o| matches!(o, Op::Create { n } if *n == a || *n == b)).map_or(0, |p| p + 1);
+                    let at = rng.range(first_ok, ops.len());
+                    let t = rng.next() | 1;
+                    let mut motif = vec![Op::Append { n: b, len: *rng.pick(&[100usize, 3000, 5000, 9000]), tag: t }];
+                    match rng.below(4) {
+                        0 => motif.push(Op::Truncate { n: a, to: rng.next() as usize >> 16 }),
+                        1 => motif.push(Op::Append { n: a, len: *rng.pick(&[1usize, 100]), tag: t.wrapping_add(2) }),
+                        2 => motif.insert(0, Op::Append { n: a, len: 4096, tag: t.wrapping_add(2) }),
+                        _ => {}
+                    }
+                    motif.push(Op::FlushRegion { n: a });
+                    // `a` itself clean beforehand, so that its flush is metadata-only (or empty)
+                    match rng.below(4) {
+                        0 => {}
+                        1 => motif.insert(0, Op::Flush),
+                        _ => motif.insert(0, Op::FlushRegion { n: a }),
+                    }
+                    for (i, m) in motif.into_iter().enumerate() {
+                        ops.insert((at + i).min(ops.len()), m);
+                    }
+                }
+            }
+        }
         if self.id == "C12" || rng.chance(1, 3) {
             let at = rng.below(ops.len().max(1));
             ops.insert(at, Op::Compact);
